@@ -30,6 +30,10 @@ type treeSpec struct {
 	Root  string         `json:"root"` // base name of the root directory (plain: not . or _ prefixed)
 	Dirs  []string       `json:"dirs"` // every directory, slash-separated, relative ("" = root)
 	Files map[string]ent `json:"files"`
+	// DirMtimes: explicit mtime (unix seconds) of some directories, set after the
+	// tree is populated. Used for directories that sit where a generated sibling
+	// would go (x_templ.go/ next to x.templ: the target cannot be written).
+	DirMtimes map[string]int64 `json:"dir_mtimes,omitempty"`
 }
 
 var c15DirNames = []string{"pkg", "sub", "deep", "vendor", "node_modules", ".git", ".hidden", "_skip", "a.b", "web", "_x.y"}
@@ -70,7 +74,10 @@ func pkgName(dir string) string {
 
 // genTree builds a seeded tree. withBad: contains unparseable / bad-Go files
 // outside skipped directories (the command must then fail).
-func genTree(r *rand.Rand, withBad bool, maxTempl int) treeSpec {
+// only != "": apart from that, every template is good and exactly ONE file cannot be
+// generated — one that also carries a parser diagnostic ("diag-badgo": invalid Go,
+// "diag-unwritable": target path is a directory) — so the exit status depends on it alone.
+func genTree(r *rand.Rand, withBad bool, only string, maxTempl int) treeSpec {
 	t := treeSpec{Root: []string{"proj", "root", "a.b", "my-app", "x1"}[r.Intn(5)], Files: map[string]ent{}}
 	dirs := []string{""}
 	has := map[string]bool{"": true}
@@ -124,7 +131,13 @@ func genTree(r *rand.Rand, withBad bool, maxTempl int) treeSpec {
 			live = append(live, d)
 		}
 	}
-	anyDir := func() string { return dirs[r.Intn(len(dirs))] }
+	anyDir := func() string {
+		for {
+			if d := dirs[r.Intn(len(dirs))]; !strings.HasSuffix(d, "_templ.go") {
+				return d
+			}
+		}
+	}
 	nT := 1 + r.Intn(maxTempl)
 	if r.Intn(3) == 0 {
 		nT = 1 + r.Intn(8)
@@ -186,6 +199,41 @@ func genTree(r *rand.Rand, withBad bool, maxTempl int) treeSpec {
 			t.Files[path.Join(d, "zz_badgo_templ.go")] = ent{Data: []byte("package " + pkgName(d) + "\n// kept\n"), Mtime: mt() - 200000}
 		}
 	}
+	// diagnostic-only control in every tree: a warning must not fail the command
+	{
+		d := live[r.Intn(len(live))]
+		t.Files[path.Join(d, "legacy_only.templ")] = ent{Data: []byte(legacyOnlyTempl(pkgName(d), r.Intn(1000))), Mtime: mt()}
+	}
+	unwritable := func(i int, src string) {
+		d := live[r.Intn(len(live))]
+		name := fmt.Sprintf("unwritable%d", i)
+		m := mt()
+		t.Files[path.Join(d, name+".templ")] = ent{Data: []byte(src), Mtime: m}
+		sd := path.Join(d, name+"_templ.go")
+		addDir(d, name+"_templ.go")
+		t.Files[path.Join(sd, "keep.txt")] = ent{Data: []byte("this directory is in the way\n"), Mtime: m - 5000}
+		if t.DirMtimes == nil {
+			t.DirMtimes = map[string]int64{}
+		}
+		t.DirMtimes[sd] = m - 4000
+	}
+	switch only {
+	case "diag-badgo":
+		d := live[r.Intn(len(live))]
+		t.Files[path.Join(d, "yy_legacy_badgo.templ")] = ent{Data: []byte(badGoLegacyTempl(r, pkgName(d))), Mtime: mt()}
+	case "diag-unwritable":
+		unwritable(1, legacyOnlyTempl("p", r.Intn(1000)))
+	}
+	if withBad {
+		// a file that has a diagnostic AND cannot be generated (invalid Go)
+		d := live[r.Intn(len(live))]
+		t.Files[path.Join(d, "yy_legacy_badgo.templ")] = ent{Data: []byte(badGoLegacyTempl(r, pkgName(d))), Mtime: mt()}
+		// files that generate fine but whose target cannot be written: the sibling path is a
+		// (non-empty) directory, older than the template; once without and once with a diagnostic
+		for i, src := range []string{plainGoodTempl(pkgName(d), r.Intn(1000)), legacyOnlyTempl(pkgName(d), r.Intn(1000))} {
+			unwritable(i, src)
+		}
+	}
 	sd := skippedDirs[r.Intn(len(skippedDirs))]
 	t.Files[path.Join(sd, "bad_in_skipped.templ")] = ent{Data: []byte(unparseableTempl(r, "x")), Mtime: mt()}
 	// orphans inside and outside skipped directories
@@ -232,6 +280,12 @@ func materialise(parent string, t treeSpec) (string, error) {
 		}
 		tm := time.Unix(e.Mtime, e.Nanos)
 		if err := os.Chtimes(f, tm, tm); err != nil {
+			return "", err
+		}
+	}
+	for d, m := range t.DirMtimes {
+		tm := time.Unix(m, 0)
+		if err := os.Chtimes(filepath.Join(root, filepath.FromSlash(d)), tm, tm); err != nil {
 			return "", err
 		}
 	}
